@@ -10,9 +10,9 @@ nopen = sum(1 for e in ents if e['status'] == 'open')
 nfix = sum(1 for l in subprocess.check_output(['git', '-C', '/repo', 'log', '--format=%s']).decode().splitlines() if l.startswith('fix:'))
 out = rd('00-head.md')
 import re
-def second_wave(P):
+def wave(P, ks, label):
     lines = []
-    for k in (3, 4):
+    for k in ks:
         d = os.path.join(ROOT, 'seeded', f'{P}-{k}')
         mp = os.path.join(d, 'meta.json')
         if not os.path.exists(mp):
@@ -21,7 +21,7 @@ def second_wave(P):
         for l in open(os.path.join(d, 'notes.md')):
             if l.startswith('#'):
                 title = re.sub(r'^#+\s*(Change|Seeded change)?\s*\d*\s*[—:-]*\s*', '', l.strip()); break
-        t = f"* {P}-{k} (second wave) — {title}: first run {m.get('first_result', m.get('checks'))} → final {m.get('checks')}."
+        t = f"* {P}-{k} ({label} wave) — {title}: first run {m.get('first_result', m.get('checks'))} → final {m.get('checks')}."
         if m.get('history'):
             t += ' ' + m['history'][0].upper() + m['history'][1:] + '.'
         lines.append(t)
@@ -29,10 +29,14 @@ def second_wave(P):
 for i in range(1, 21):
     P = f'C{i:02d}'
     txt = rd(f'{P}.md').rstrip()
+    add = []
     if f'{P}-3' not in txt:
-        sw = second_wave(P)
-        if sw and '**Differences from the plan.**' in txt:
-            txt = txt.replace('**Differences from the plan.**', sw + '\n\n**Differences from the plan.**', 1)
+        add.append(wave(P, (3, 4), 'second'))
+    if f'{P}-5' not in txt:
+        add.append(wave(P, (5, 6), 'third'))
+    add = '\n'.join(a for a in add if a)
+    if add and '**Differences from the plan.**' in txt:
+        txt = txt.replace('**Differences from the plan.**', add + '\n\n**Differences from the plan.**', 1)
     out += txt + '\n\n'
 out += rd('90-tail.md').replace('{{SEEDED_TABLE}}', rd('seeded.md'))
 out += '\n' + rd('appendix.md')
